@@ -195,6 +195,10 @@ def run(ctx):
                 samples.append({"unit": u.key(), "options": u.cfg_words, "function": c.fn.label(), "signature": sig_shape(c.fn),
                                 "args": c.args_s[:300], "result": (c.ret_s or "")[:300]})
         viol += [(u, v) for v in violations_of(u)]
+    nran = status.get("ran", 0)
+    if nran * 2 < len(units):
+        bad = [(u.key(), u.status, u.detail[:200]) for u in units if u.status != "ran"][:3]
+        ctx.tie_broken("tie", "only %d of %d (world, options) units could be generated, built and run; e.g. %s" % (nran, len(units), bad))
     # report: one violation per key, minimised
     seen = set()
     for u, (key, what, c) in viol:
